@@ -87,7 +87,7 @@ TECHNIQUE = ("Coq proof (non-interference: invariant 'inside a wrapper the ambie
              "correspondence of the extracted model with real concurrent SSR renders + solo-replay oracle")
 
 # ------------------------------------------------------------------------------------------ programs
-TEXT, LEAF, DYN, EL, SEQ, PROVIDE, SUSPEND, SUSPENSE, RESOURCE, CLEANUP, ALLOC, ITEM = range(12)
+TEXT, LEAF, DYN, EL, SEQ, PROVIDE, SUSPEND, SUSPENSE, RESOURCE, CLEANUP, ALLOC, ITEM, DYNL = range(13)
 
 
 class Gen:
@@ -103,42 +103,44 @@ class Gen:
         self.p += 1
         return self.p
 
-    def leaf(self, sync, slots):
+    def leaf(self, sync, slots, top=False):
         r = self.rng.random()
         if r < 0.35:
             return [LEAF, self.probe()]
         if r < 0.65 and not sync:
-            return [DYN, self.probe()]
+            # DYNL where the owner the closure is rendered under does not depend on timing
+            return [DYN if top else DYNL, self.probe()]
         if r < 0.9 and slots:
             return [ITEM, self.probe(), self.rng.choice(slots)]
         return [TEXT]
 
-    def view(self, d, sync, slots):
+    def view(self, d, sync, slots, top=False, insus=False):
+        """top: directly inside the view a Suspend/Resource outside any Suspense resolves to"""
         rng = self.rng
         if d >= self.maxdepth:
-            return self.leaf(sync, slots)
+            return self.leaf(sync, slots, top)
         r = rng.random()
         if r < 0.16:
-            return self.leaf(sync, slots)
+            return self.leaf(sync, slots, top)
         if r < 0.22:
-            return [EL, self.view(d + 1, sync, slots)]
+            return [EL, self.view(d + 1, sync, slots, top, insus)]
         if r < 0.38:
-            return [SEQ] + [self.view(d + 1, sync, slots) for _ in range(rng.choice([2, 2, 3]))]
+            return [SEQ] + [self.view(d + 1, sync, slots, top, insus) for _ in range(rng.choice([2, 2, 3]))]
         if r < 0.48:
-            return [PROVIDE, rng.randrange(1, 4), self.view(d + 1, sync, slots)]
+            return [PROVIDE, rng.randrange(1, 4), self.view(d + 1, sync, slots, False, insus)]
         if r < 0.64 and not sync:
-            return [SUSPEND, rng.randrange(self.ng), self.probe(), self.view(d + 1, self.flat, slots)]
+            return [SUSPEND, rng.randrange(self.ng), self.probe(), self.view(d + 1, self.flat, slots, not insus, insus)]
         if r < 0.76 and not sync:
-            return [SUSPENSE, self.view(self.maxdepth - 1, True, slots), self.view(d + 1, False, slots)]
+            return [SUSPENSE, self.view(self.maxdepth - 1, True, slots), self.view(d + 1, False, slots, False, True)]
         if r < 0.86 and not sync:
             return [RESOURCE, rng.randrange(2), rng.randrange(self.ng), self.probe(), self.probe(), self.probe(),
-                    self.view(d + 1, self.flat, slots)]
+                    self.view(d + 1, self.flat, slots, not insus, insus)]
         if r < 0.91:
             self.cid += 1
-            return [CLEANUP, self.cid, self.view(d + 1, sync, slots)]
+            return [CLEANUP, self.cid, self.view(d + 1, sync, slots, top, insus)]
         self.nslot += 1
         s = self.nslot if rng.random() < 0.6 else 100 + self.nslot
-        return [ALLOC, s, self.view(d + 1, sync, slots + [s])]
+        return [ALLOC, s, self.view(d + 1, sync, slots + [s], top, insus)]
 
 
 def gen_prog(rng, maxdepth, ngates, flat):
@@ -162,12 +164,12 @@ def has_async(p):
 
 
 SMALL = [
-    [SEQ, [LEAF, 1], [SUSPEND, 0, 2, [DYN, 3]], [DYN, 4]],
-    [SUSPENSE, [LEAF, 1], [SUSPEND, 0, 2, [SEQ, [LEAF, 3], [DYN, 4]]]],
-    [PROVIDE, 2, [SEQ, [RESOURCE, 0, 0, 1, 2, 3, [LEAF, 4]], [DYN, 5]]],
+    [SEQ, [LEAF, 1], [SUSPEND, 0, 2, [DYN, 3]], [DYNL, 4]],
+    [PROVIDE, 3, [SUSPENSE, [LEAF, 1], [SUSPEND, 0, 2, [SEQ, [LEAF, 3], [DYNL, 4], [PROVIDE, 1, [DYNL, 5]]]]]],
+    [PROVIDE, 2, [SEQ, [RESOURCE, 0, 0, 1, 2, 3, [LEAF, 4]], [DYNL, 5]]],
     [ALLOC, 1, [CLEANUP, 7, [SUSPENSE, [TEXT], [RESOURCE, 1, 0, 1, 2, 3, [ITEM, 4, 1]]]]],
-    [ALLOC, 101, [SUSPEND, 0, 1, [PROVIDE, 1, [SEQ, [ITEM, 2, 101], [SUSPENSE, [CLEANUP, 3, [TEXT]], [DYN, 4]]]]]],
-    [SEQ, [SUSPEND, 0, 1, [ALLOC, 2, [ITEM, 2, 2]]], [EL, [SUSPENSE, [TEXT], [SUSPEND, 0, 3, [DYN, 4]]]]],
+    [ALLOC, 101, [SUSPEND, 0, 1, [PROVIDE, 1, [SEQ, [ITEM, 2, 101], [SUSPENSE, [CLEANUP, 3, [TEXT]], [DYNL, 4]]]]]],
+    [SEQ, [SUSPEND, 0, 1, [ALLOC, 2, [ITEM, 2, 2]]], [EL, [SUSPENSE, [TEXT], [SUSPEND, 0, 3, [DYNL, 4]]]]],
 ]
 
 
@@ -262,7 +264,7 @@ def wf_prog(p, slots=()):
     op, a = p[0], p[1:]
     if op == TEXT:
         return a == []
-    if op in (LEAF, DYN):
+    if op in (LEAF, DYN, DYNL):
         return len(a) == 1 and ints(a)
     if op == EL:
         return len(a) == 1 and wf_prog(a[0], slots)
@@ -292,7 +294,7 @@ def async_depth(p):
 
 def probes(p):
     out = []
-    if p[0] in (LEAF, DYN, ITEM):
+    if p[0] in (LEAF, DYN, ITEM, DYNL):
         out.append(p[1])
     if p[0] == SUSPEND:
         out.append(p[2])
@@ -312,9 +314,25 @@ def sync_only(p, inside=False):
 
 
 def no_async_dyn(p):
-    if p[0] in (DYN, SUSPEND, RESOURCE, SUSPENSE):
+    if p[0] in (DYN, DYNL, SUSPEND, RESOURCE, SUSPENSE):
         return False
     return all(no_async_dyn(c) for c in p[1:] if isinstance(c, list))
+
+
+def dynl_ok(p, top=False, insus=False):
+    """DYNL only where the owner it is rendered under is the lexical one whatever the timing"""
+    op = p[0]
+    if op == DYNL:
+        return not top
+    if op == PROVIDE:
+        return dynl_ok(p[2], False, insus)
+    if op == SUSPENSE:
+        return dynl_ok(p[1], False, True) and dynl_ok(p[2], False, True)
+    if op == SUSPEND:
+        return dynl_ok(p[3], not insus, insus)
+    if op == RESOURCE:
+        return dynl_ok(p[6], not insus, insus)
+    return all(dynl_ok(c, top, insus) for c in p[1:] if isinstance(c, list))
 
 
 def valid_case(item):
@@ -325,7 +343,7 @@ def valid_case(item):
     if not (isinstance(progs, list) and 2 <= len(progs) <= 3 and isinstance(sched, list)):
         return False
     for p in progs:
-        if not wf_prog(p) or not sync_only(p):
+        if not wf_prog(p) or not sync_only(p) or not dynl_ok(p):
             return False
         ps = probes(p)
         if len(ps) != len(set(ps)) or any(q < 1 or q > 900 for q in ps):
@@ -358,14 +376,14 @@ def own_event(r, e):
 
 
 def oracle(item, impl):
-    if isinstance(impl, str):
-        return "harness error / panic: " + impl[:200]
     if not valid_case(item):
         return None
     case = item["case"]
     obs, pipeline = case[0], case[3]
     if pipeline == 2:
-        return None            # negative control, see coverage_extra
+        return None            # negative control, not judged: see coverage_extra
+    if isinstance(impl, str):
+        return "harness error / panic: " + impl[:200]
     n = len(case[5])
     if obs == 0:
         per_req = impl[1]
@@ -377,7 +395,7 @@ def oracle(item, impl):
                     return "probe %d of request %d saw %s" % (e[0], r, w)
             for cid, d in cl:
                 if d != r:
-                    return "cleanup %d of request %d ran while request %d was being dropped" % (cid, r, d)
+                    return "cleanup %d of request %d ran while code of request %d was executing" % (cid, r, d)
         return None
     conc = impl[0]
     for r in range(1, n + 1):
@@ -387,8 +405,8 @@ def oracle(item, impl):
             if w:
                 return "probe %d of request %d saw %s" % (e[0], r, w)
         for cid, d in cl:
-            if d not in (r, 0):
-                return "cleanup %d of request %d ran while request %d was being dropped" % (cid, r, d)
+            if d != r:
+                return "cleanup %d of request %d ran while code of request %d was executing" % (cid, r, d)
         if html != solo_html:
             return "response of request %d differs from its solo render: %r vs %r" % (
                 r, first_diff(html, solo_html), first_diff(solo_html, html))
@@ -433,7 +451,7 @@ def nontrivial(item, model):
 
 def describe(it):
     c = it["case"]
-    names = ["text", "leaf", "dyn", "el", "seq", "provide", "suspend", "suspense", "resource", "cleanup", "alloc", "item"]
+    names = ["text", "leaf", "dyn", "el", "seq", "provide", "suspend", "suspense", "resource", "cleanup", "alloc", "item", "dynl"]
 
     def pv(p):
         if not isinstance(p, list) or not p:
